@@ -295,12 +295,7 @@ func (w *World) execInto(supis []string, h *HistRun, ops []Op, snapFrom int, wit
 		case "recharge":
 			// what the web console does: credit the account document, then call the recharging route
 			if op.Amt != 0 {
-				for _, d := range mongoapi.Docs[chargingColl] {
-					if d["ueId"] == supi && d["ratingGroup"] == op.RG {
-						q, _ := strconv.ParseInt(d["quota"].(string), 10, 64)
-						d["quota"] = strconv.FormatInt(q+op.Amt, 10)
-					}
-				}
+				mongoapi.Credit(chargingColl, supi, op.RG, op.Amt)
 			}
 			st.Resp = w.Do("PUT", ccBase+"/recharging/"+url.PathEscape(supi+"_"+strconv.Itoa(int(op.RG))), nil, nil)
 		case "http":
